@@ -235,7 +235,7 @@ class Ctx:
         for kid, (m, n) in sorted(hit.items()):
             print("KNOWN-FINDING: property=%s %s [%s, observed %d times this run]" % (self.pid, m["what"], kid, n))
         rc = 0
-        rdir = os.path.join(VERIF, "replay", self.pid)
+        rdir = os.path.join(os.environ.get("VERIF_REPLAY_DIR") or os.path.join(VERIF, "replay"), self.pid)
         shutil.rmtree(rdir, ignore_errors=True)
         seen = set()
         nrep = 0
@@ -277,8 +277,9 @@ class Ctx:
         ev = {"property_id": self.pid, "tier": self.tier, "seed": self.seed, "level": self.level, "coverage": cov,
               "assumptions": self.assumptions, "wall_s": round(time.time() - self.t0, 2),
               "violations": len(unknown)}
-        os.makedirs(os.path.join(VERIF, "evidence"), exist_ok=True)
-        with open(os.path.join(VERIF, "evidence", self.pid + ".json"), "w") as f:
+        evdir = os.environ.get("VERIF_EVIDENCE_DIR") or os.path.join(VERIF, "evidence")
+        os.makedirs(evdir, exist_ok=True)
+        with open(os.path.join(evdir, self.pid + ".json"), "w") as f:
             json.dump(ev, f, indent=1, default=str)
             f.write("\n")
         print("%s %s seed=%d: %s; evaluations=%d distinct_nontrivial=%d known=%d inconclusive=%d wall=%.0fs" % (
